@@ -254,10 +254,55 @@ func genLong(g *Gen, kind string, n int) {
 	r := g.R
 	for c := 0; c < n; c++ {
 		nw := []int{1024, 1025, 1100, 2048, 2100, 4100}[r.Intn(6)]
+		clustered := c%2 == 0
+		if clustered {
+			nw = []int{2048, 3072, 4100, 8192, 3073}[r.Intn(5)]
+		}
 		nbits := int64(nw * 64)
-		dense := c%2 == 1
+		dense := c%4 >= 2
 		set := map[int64]bool{}
-		for k := 20 + r.Intn(150); k > 0; k-- {
+		if clustered {
+			// a few clusters of list entries (5..40 in 1..3 adjacent words), often starting exactly on a multiple of
+			// 65536 bits, with whole 65536-bit aligned chunks between them untouched: groups of 32 entries that span
+			// more than 65536 bits, entries sharing a word with the first entry of the next group, chunks that are
+			// entirely 0 (or, for dense, entirely 1) followed by an entry in bit 0 of the next word
+			// one aligned chunk is kept free of entries, and a cluster starts in bit 0 of the word right behind it
+			free := int64(r.Intn(nw/1024 - 1))
+			for k := 3 + r.Intn(6); k >= 0; k-- {
+				w := int64(r.Intn(nw))
+				if r.Intn(2) == 0 {
+					w = 1024 * int64(r.Intn(nw/1024+1))
+					if r.Intn(3) == 0 {
+						w--
+					}
+				}
+				if k == 0 {
+					w = 1024 * (free + 1)
+				}
+				if w < 0 || w >= int64(nw) || (w >= 1024*free-3 && w < 1024*(free+1)) {
+					continue
+				}
+				set[w*64] = r.Intn(4) != 0 || k == 0
+				if k == 0 {
+					set[w*64+1+int64(r.Intn(20))] = true
+				}
+				span := int64(64 * (1 + r.Intn(3)))
+				for e := 5 + r.Intn(36); e > 0; e-- {
+					if p := w*64 + r.Int63n(span); p < nbits {
+						set[p] = true
+					}
+				}
+				if r.Intn(2) == 0 {
+					set[w*64+63] = true
+				}
+			}
+			for p, on := range set {
+				if !on {
+					delete(set, p)
+				}
+			}
+		}
+		for k := 20 + r.Intn(150); k > 0 && !clustered; k-- {
 			var p int64
 			switch r.Intn(4) {
 			case 0:
@@ -276,6 +321,18 @@ func genLong(g *Gen, kind string, n int) {
 			list = append(list, p)
 		}
 		sortI64(list)
+		if clustered && !dense {
+			// make the first entry behind the free chunk the last (32nd) of its group of 32 (drop a few of the first entries):
+			// its group then spans more than 65536 bits and the next group starts in the word of its successor
+			for j := 0; j+2 < len(list); j++ {
+				if list[j+1]-list[j] > 65536 && list[j+1]>>6 == list[j+2]>>6 {
+					if drop := (j + 2) % 32; drop <= j-1 && r.Intn(4) != 0 {
+						list = list[drop:]
+					}
+					break
+				}
+			}
+		}
 		in := J{"nw": nw, "dense": dense, "list": list}
 		if kind == "rankl" {
 			pos := []int64{0, nbits - 1, 65535, 65536, 65537, 131071, 131072}
@@ -303,6 +360,11 @@ func genLong(g *Gen, kind string, n int) {
 			for k := 0; k < 60; k++ {
 				is = append(is, r.Int63n(nones))
 			}
+			if clustered && !dense {
+				for i := int64(0); i < nones; i++ { // every rank
+					is = append(is, i)
+				}
+			}
 			if dense {
 				for _, z := range list { // ranks right before and after a 0-bit
 					i := z - int64(len(list)) // rough neighbourhood
@@ -323,7 +385,7 @@ func genLong(g *Gen, kind string, n int) {
 
 func genC01(g *Gen) {
 	g.Case("masks", J{})
-	genLong(g, "rankl", g.N(6, 120))
+	genLong(g, "rankl", g.N(12, 120))
 	genBitmaps(g, g.N(1200, 40000), 10, 3, func(ws []uint64) {
 		g.Case("rank", J{"bm": bmJ(ws)})
 	})
@@ -361,7 +423,7 @@ func execSelect(in In, em *Emitter) {
 func genC02(g *Gen) {
 	r := g.R
 	emit := func(ws []uint64) { g.Case("select", J{"bm": bmJ(ws)}) }
-	genLong(g, "selectl", g.N(6, 120))
+	genLong(g, "selectl", g.N(12, 120))
 	genBitmaps(g, g.N(1000, 40000), 8, 2, emit)
 	// every single-byte word b << 8j: the whole 256x8 in-byte lookup table through the API
 	for b := 1; b < 256; b++ {
